@@ -287,7 +287,9 @@ def run_probe(arg):
         z = tonp(tr.forward(tr.xp.asarray(xs))[0]).astype(np.float64)
         zt = _kernel._like(template, z)
         val = tonp(log_prob_fn(zt)).astype(np.float64).reshape(-1)
-        final_phase = len(smp.history.beta) > 0 and smp.history.beta[-1] == 1.0 and len(smp.history.mcmc_acceptance) >= len(smp.history.beta)
+        # every loop iteration has recorded its mutation: what is probed now is the enlargement to n_final_samples, whose
+        # population was just resampled to temperature 1 (also when the step cap ended the loop below 1)
+        final_phase = len(smp.history.beta) > 0 and len(smp.history.mcmc_acceptance) >= len(smp.history.beta)
         beta = 1.0 if final_phase else smp.history.beta[-1]
 
         def inv_np(zrow):
@@ -442,6 +444,10 @@ def configs(tier):
         for precond in ("none", "periodic", "logit_affine", "probit"):
             for sched in ({"adaptive": True, "target_efficiency": 0.8}, {"adaptive": False, "n_steps": 3}):
                 out.append(("run_probe", (sampler, precond, sched)))
+    # a run that the step cap ends below temperature 1, followed by the enlargement
+    for precond in ("none", "logit_affine"):
+        out.append(("run_probe", ("smc", precond, {"adaptive": False, "n_steps": 3, "max_n_steps": 2})))
+        out.append(("run_probe", ("smc", precond, {"adaptive": True, "target_efficiency": 0.9, "min_step": 0.1, "max_n_steps": 2})))
     for precond in ("none", "logit", "affine", "logit+affine"):
         for sched in ({"adaptive": True, "target_efficiency": 0.8}, {"adaptive": False, "n_steps": 3}):
             out.append(("run_blackjax_probe", (precond, sched)))
